@@ -12,6 +12,7 @@ from datashard.metadata_manager import MetadataManager
 from vf.runner import Ob
 
 LEVEL = "other"
+TECHNIQUE = ('CrossHair (z3) on the real pointer parser over symbolic bytes + symx over (leftover-producing event x pointer damage class x follow-up) through the real recovery code')
 EXPLANATION = (
     "Bounded symbolic execution of the real pointer parser (CrossHair/z3: every byte string up to the stated "
     "length; verdict 'Confirmed over all paths') and of the real recovery / initialisation code over an "
